@@ -326,6 +326,8 @@ def run(pid, tier, seed, a):
         for ob, q, s in sat_obs:
             if ob["target"] == "complete_iteration":
                 rp = replay_c18(pid, ctx, ob, q, solver, a)
+            elif ob["target"] == "complete_candidates":
+                rp = replay_native_crate(pid, ctx, ob, q, solver, "c18", "C18-REPLAY")
             elif ob["target"] == "mangen":
                 rp = replay_native_crate(pid, ctx, ob, q, solver, "c19", "C19-REPLAY")
             elif ob["kind"] == "spec" or ob["target"] in ("id_closures_total",):
